@@ -64,7 +64,9 @@ fn u5_dispatch() {
         OC_SOME = kani::any();
     }
     let b = alias(&a);
+    let tables_before = unsafe { crate::verif::vmap::LIVE_TABLES };
     drop(b);
+    let tables_after = unsafe { crate::verif::vmap::LIVE_TABLES };
     let (du, dua, dc, oc) = unsafe { (CALLS_DU, CALLS_DUA, CALLS_DC, CALLS_OC) };
     kani::assert(a.inner().weak() == w, "U5.frame.weak_unchanged");
     if s == 0 || s == MAX {
@@ -74,6 +76,7 @@ fn u5_dispatch() {
         kani::assert(a.inner().strong() == s - 1, "U5.live.strong_minus_one");
         if !has_link {
             kani::assert(oc == 0 && dc == 0 && dua == 0, "U5.empty_table.no_trace_no_group_teardown");
+            kani::assert(tables_after == tables_before, "U5.empty_table.no_table_constructed");
             kani::assert(du == (if s == 1 { 1 } else { 0 }), "U5.empty_table.drop_unreachable_iff_now_zero");
         } else if s == 1 {
             kani::assert(dua == 1 && du == 0 && oc == 0 && dc == 0, "U5.links_zero.drop_unreachable_with_adoptions_once");
@@ -384,11 +387,15 @@ fn u6_drop_cycle_unequal_degree() {
     m.insert(fwd(&b), 1);
     register_member(0, &a, wa);
     register_member(1, &b, wb);
+    let c = Rc::new(9u8);
+    let (sc, wc): (usize, usize) = (kani::any(), kani::any());
+    set_counts(&c, sc, wc);
     unsafe { drop_cycle(m) };
     kani::assert(a.inner().is_uninit() && b.inner().is_uninit(), "U6.drop_cycle.every_key_of_the_orphan_map_ends_gone");
     kani::assert(a.inner().weak() == wa - 1 && b.inner().weak() == wb - 1, "U6.drop_cycle.each_member_weak_minus_one_exactly_once");
     kani::assert(unsafe { vmap::TAGGED_DROPS } == 2, "U6.drop_cycle.each_member_table_released_exactly_once");
-    core::mem::forget((a, b));
+    kani::assert(c.inner().strong() == sc && c.inner().weak() == wc, "U6.drop_cycle.frame.non_member_counters_untouched");
+    core::mem::forget((a, b, c));
 }
 
 /// last Weak gone: the member allocations are released (probe)
